@@ -128,6 +128,23 @@ def scen_phase(cfg):
         ok3 = [_maxis(V, nodes[t].phase, path_sums(n, edges, skips, nd2, cd2, t)) for t in range(n)]
         ok3.append(_close(V, nodes[e0[1]].info.inputs[f"n{e0[0]}"].delay, newc))
         res["after connection.set_delay(delay=d) every downstream phase and the infos use d"] = _allv(V, ok3)
+        # a longer history: overwrite node 0's delay again, change the last node and the last connection, and a call that only passes a distribution
+        new2, newl, newc2 = V.grid("new_delay2", lo=0, hi=1), V.grid("new_delay_last", lo=0, hi=1), V.grid("new_cdelay2", lo=0, hi=1)
+        nodes[0].set_delay(delay=new2)
+        nodes[n - 1].set_delay(delay=newl)
+        el = edges[-1]
+        nodes[el[1]].inputs[f"n{el[0]}"].set_delay(delay=newc2)
+        keep_dist = SymDist(qv=V.grid("other_q", lo=0, hi=1), tag="other")
+        nodes[0].set_delay(delay_dist=keep_dist)  # no expected delay given: the configured one stays
+        nd3 = list(nd2)
+        nd3[0] = new2
+        nd3[n - 1] = newl if n - 1 != 0 else new2
+        cd3 = dict(cd2)
+        cd3[el] = newc2
+        ok4 = [_maxis(V, nodes[t].phase, path_sums(n, edges, skips, nd3, cd3, t)) for t in range(n)]
+        ok4 += [_close(V, nodes[t].info.delay, nd3[t]) for t in range(n)] + [_close(V, nodes[t].info.phase, nodes[t].phase) for t in range(n)]
+        ok4.append(nodes[0].delay_dist is keep_dist and nodes[0].info.delay_dist is keep_dist)
+        res["after a history of further set_delay calls (overwrite, other node, other connection, distribution only) phases and infos follow the latest values"] = _allv(V, ok4)
         live_targets = [j for (i, j), sk in zip(edges, skips) if not sk]
         if live_targets:
             res["twin:some phase positive"] = nodes[live_targets[0]].phase > 0
@@ -299,7 +316,7 @@ def run(rep):
     cfgs = configs(rep.tier)
     rep.configs = cfgs
     rep.bounds = dict(nodes="<= 3 (4)", dag_shapes=len([c for c in cfgs if c["scen"] == "phase"]), expected_delays="symbolic on the 1us grid in [0,1]")
-    rep.assumptions = ["delay distributions replaced by stand-ins exposing quantile/mean (no JAX involved)", "histories: one set_delay on a node and one on a connection after construction",
+    rep.assumptions = ["delay distributions replaced by stand-ins exposing quantile/mean (no JAX involved)", "histories: construction, then set_delay on a node, on a connection, again on the same node, on the last node, on the last connection, and one call passing only a distribution (phases/infos checked after each stage)",
                        "'takes effect in subsequent simulation' is checked as: the runtime objects (node.delay_dist / connection.delay_dist / info) are the new ones"]
     rep.add_all(pmap("props.c16", "worker", cfgs, rep.tier))
 
